@@ -145,7 +145,8 @@ class SchemaGen:
         self.use("string_unknown_format")
         return {"type": "string", "format": self.pick(["email", "hostname", "custom"])}
 
-    def s_string_enum(self):
+    def s_string_enum(self, no_null=True):
+        # the nullable form only where a null alternative cannot overlap a sibling (see s_scalar)
         self.use("string_enum")
         n = self.r.randrange(1, 6)
         s = {"type": "string", "enum": self.sample(ENUM_VALUES, n)}
@@ -161,7 +162,7 @@ class SchemaGen:
                 s["minLength"] = self.r.randrange(1, 4)
             else:
                 s["pattern"] = self.pick(["^[a-z]", "[A-Za-z]$", "^.{1,3}$"])
-        elif k < 0.26:
+        elif k < 0.26 and not no_null:
             self.use("string_enum_nullable")
             s = {"type": ["string", "null"], "enum": s["enum"] + [None]}
         return s
@@ -175,6 +176,20 @@ class SchemaGen:
             return {"type": "number", "enum": self.sample([0.5, 1.5, 2.25, -4.0, 8.0], self.r.randrange(1, 4))}
         return {"type": "integer", "format": "uint8", "enum": self.sample([1, 2, 3, 200, 255], self.r.randrange(1, 4))}
 
+    def s_untyped_enum(self, no_null=False):
+        """enum without a `type`: the JSON type is implied by the values (optionally with null)."""
+        self.use("untyped_enum")
+        k = self.r.randrange(3)
+        if k == 0:
+            vals = self.sample(ENUM_VALUES, self.r.randrange(1, 5))
+        elif k == 1:
+            vals = self.sample([1, 2, 3, 5, 8, -1, 0, 100], self.r.randrange(1, 5))
+        else:
+            vals = self.sample([0.5, 1.5, 2.25, -4.5, 8.75], self.r.randrange(1, 4))
+        if not no_null and self.chance(0.3):
+            vals = vals + [None]
+        return {"enum": vals}
+
     def s_not_enum(self):
         self.use("not_enum")
         vals = self.sample(ENUM_VALUES, self.r.randrange(1, 4))
@@ -184,8 +199,9 @@ class SchemaGen:
 
     def s_scalar(self, no_null=False):
         opts = [("bool", self.s_bool, 1), ("integer", self.s_integer, 3), ("number", self.s_number, 1),
-                ("string", self.s_string, 4), ("string_enum", self.s_string_enum, 2),
+                ("string", self.s_string, 4), ("string_enum", lambda: self.s_string_enum(no_null), 2),
                 ("typed_enum", self.s_typed_enum, 1),
+                ("untyped_enum", lambda: self.s_untyped_enum(no_null), 0.6),
                 ("not_enum", self.s_not_enum, 0.5 if self.profile != "F" else 0),  # F excludes deny lists (C02)
                 ("null", self.s_null, 0 if no_null else 0.3)]
         opts = [o for o in opts if self.allowed(o[0]) and o[2] > 0]
@@ -208,6 +224,9 @@ class SchemaGen:
     def s_array(self, d):
         r = self.r
         k = r.random()
+        if k < 0.05:
+            self.use("array_of_any")
+            return self.pick([{"type": "array"}, {"type": "array", "items": True}, {"type": "array", "items": {}}])
         if k < 0.5:
             self.use("vec")
             s = {"type": "array", "items": self.schema(d + 1)}
@@ -521,7 +540,7 @@ class SchemaGen:
                 ("oneof_adjacent", lambda: self.s_oneof_adjacent(0), 1),
                 ("oneof_untagged", lambda: self.s_oneof_untagged(0), 1),
                 ("oneof_objects", lambda: self.s_oneof_objects(0), 0.7),
-                ("string_enum", self.s_string_enum, 1),
+                ("string_enum", lambda: self.s_string_enum(False), 1),
                 ("string", self.s_string, 1),
                 ("allof_objects", lambda: self.s_allof_objects(0), 0.7)]
         opts = [o for o in opts if self.allowed(o[0]) or o[0] == "any"]
